@@ -160,17 +160,21 @@ LAYOUT_PROGRAMS = [
 ]
 
 
-def layout_gaps(toks):
+# programs around a symbol that is registered both as postfix and as infix operator
+LAYOUT_DOUBLE = ['100 --- - 1', 'n --- - 1', '( n ) --- 2', '1 --- --- 2']
+
+
+def layout_gaps(toks, op=None):
     """-> for every gap between adjacent tokens: may the whitespace be dropped without changing the token sequence
     (decided by the reference tokenizer of C10 on the glued text)"""
     from harness import c10
     want = None
     out = []
-    base = c10.concrete_ref(' '.join(toks).encode(), None)
+    base = c10.concrete_ref(' '.join(toks).encode(), op)
     nb = len(base) if base != 'err' else None
     for i in range(len(toks) - 1):
         glued = ' '.join(toks[:i + 1]) + ' '.join([''] + toks[i + 1:])[1:] if False else (' '.join(toks[:i + 1]) + ' '.join(toks[i + 1:]))
-        r = c10.concrete_ref(glued.encode(), None)
+        r = c10.concrete_ref(glued.encode(), op)
         ok = r != 'err' and nb is not None and len(r) == nb and [k for k, _, _ in r] == [k for k, _, _ in base]
         if ok:
             # same kinds and count: also the same texts
@@ -188,7 +192,14 @@ def harness_layout(it, px, params):
     progs = params['programs']
     k = pick_config(px, 'prog', len(progs))
     toks = progs[k].split()
-    gaps = layout_gaps(toks)
+    if progs[k] in LAYOUT_DOUBLE:
+        H = ArcV(Cell(PyFn(lambda i, a: Ok(api.V_num(1, 0)), 'h'), 'h'))
+        it.call('register_postfix_op', [mkstr('---'), H])
+        it.call('register_infix_op', [mkstr('---'), 100, Enum('InfixOpType', 0, 'CALC'), Enum('InfixOpAssociativity', 0, 'LEFT'), H])
+        gaps = layout_gaps(toks, b'---')
+        px.cover('layout-double-registration')
+    else:
+        gaps = layout_gaps(toks)
     removable = [i for i, g in enumerate(gaps) if g]
     # variants, one gap at a time (the others hold one space): one symbolic whitespace byte | two symbolic bytes | dropped
     # (where the tokens stay separate without it); plus all droppable gaps dropped at once
@@ -238,7 +249,7 @@ def harness_layout(it, px, params):
         wit2 = px.eval_bytes(model, text)
         px.finding({'key': 'C11|layout|%s|%s|%s' % (bad, progs[k], vname),
                     'desc': 'the layout %r of `%s` changes the parse (%s)' % (wit2.decode('utf-8', 'replace'), progs[k], bad),
-                    'a': ' '.join(toks).encode().hex(), 'b': wit2.hex(), 'kind': 'ws'})
+                    'a': ' '.join(toks).encode().hex(), 'b': wit2.hex(), 'kind': 'ws', 'double': progs[k] in LAYOUT_DOUBLE})
     return rec
 
 
@@ -356,7 +367,7 @@ def run(ctx):
     tpls += [('extra', x.split()) for x in ('f ( a , b ) + [ c , d ] * { e : g }', 'a = b ; c = d + 1', '- a ++ * ! b', 'a ? b : c', 'x not in [ 1 , 2 ]', '1.5 + "s" == true')]
     pp = {'templates': tpls, 'seed': ctx.seed, 'timeout_ms': 10000, 'step_limit': 2000000}
     recs_p, summ_p = ex.explore(eng, harness_paren, pp, prepare=prepare)
-    recs_l, summ_l = ex.explore(eng, harness_layout, {'programs': LAYOUT_PROGRAMS, 'seed': ctx.seed, 'timeout_ms': 10000, 'step_limit': 2000000}, prepare=prepare)
+    recs_l, summ_l = ex.explore(eng, harness_layout, {'programs': LAYOUT_PROGRAMS + LAYOUT_DOUBLE, 'seed': ctx.seed, 'timeout_ms': 10000, 'step_limit': 2000000}, prepare=prepare)
     recs_p = recs_p + recs_l
     for k_ in ('paths', 'decisions', 'sat', 'unsat', 'unknown', 'solver_s', 'steps'):
         summ_p[k_] += summ_l[k_]
@@ -372,7 +383,7 @@ def run(ctx):
     covers = set()
     for r in recs_w + recs_p:
         covers.update(r.get('covers', []))
-    for need in ('accepted-utf8', 'accepted-alpha', 'relayout-checked', 'layout-checked', 'layout-dropped-gap'):
+    for need in ('accepted-utf8', 'accepted-alpha', 'relayout-checked', 'layout-checked', 'layout-dropped-gap', 'layout-double-registration'):
         if need not in covers:
             inconclusive.append('vacuity: cover %s not reached' % need)
     groups = {}
@@ -385,6 +396,10 @@ def run(ctx):
         f = fs[0]
         if f['kind'] == 'ws':
             sc = [{'op': 'parse', 'hex': f['a'], 'want': ['ast']}, {'op': 'parse', 'hex': f['b'], 'want': ['ast']}]
+            if f.get('double'):
+                hs = {'h': 'const', 'value': {'t': 'num', 'm': '1', 's': 0}}
+                sc = [{'op': 'register_postfix', 'name': b'---'.hex(), 'handler': hs},
+                      {'op': 'register_infix', 'name': b'---'.hex(), 'prec': 100, 'type': 'CALC', 'assoc': 'LEFT', 'handler': hs}] + sc
             wt = '%r vs %r' % (bytes.fromhex(f['a']).decode('utf-8', 'replace'), bytes.fromhex(f['b']).decode('utf-8', 'replace'))
         else:
             sc = c02.scenario(f['a'], {o: (int(p), a) for o, (p, a) in f['table'].items()})
